@@ -3,6 +3,7 @@ package writecache
 import (
 	"errors"
 
+	"github.com/nspcc-dev/neofs-node/internal/verifhook"
 	storagelog "github.com/nspcc-dev/neofs-node/pkg/local_object_storage/internal/log"
 	"github.com/nspcc-dev/neofs-sdk-go/object"
 	oid "github.com/nspcc-dev/neofs-sdk-go/object/id"
@@ -42,6 +43,7 @@ func (c *cache) put(addr oid.Address, data []byte) error {
 		return err
 	}
 
+	verifhook.Point("writecache.put.file")
 	c.objCounters.Add(addr, objSz)
 	c.metrics.IncWCObjectCount()
 	c.metrics.AddWCSize(objSz)
